@@ -136,6 +136,23 @@ def cases():
         xsd(f"deep-unclosed:depth={depth}", "<xs:sequence>" * depth)
         out.append((f"deep-in-imported-file:depth={depth}", {"a.xsd": schema('<xs:import namespace="http://zv.test/b" schemaLocation="b.xsd"/>'),
                                                              "b.xsd": "<b a='>'>" * depth + "</b>" * depth}, "a.xsd"))
+    # ---- the same depth where a scan of the raw text (rather than a parse) can lose count: markup characters inside attribute
+    # values, and close tags inside comments, CDATA sections and processing instructions, which are not tags
+    depth = 100_000
+    for tag, deco in (("attr-value-slash-gt", ' v="k/>"'), ("attr-value-slash-gt-single-quotes", " v='k/>'"), ("attr-value-gt", ' v="a>b"'),
+                      ("attr-value-quote-in-quotes", """ v='"/>' w="'/>" """), ("attr-value-lt-entity", ' v="&lt;/a>"'),
+                      ("attr-spaces-and-line-breaks", '\n  v = "/>"\n'), ("attr-value-looks-like-close-tag", ' v="</a>"'.replace("<", "&lt;"))):
+        out.append((f"deep-plain-elements:start-tag={tag}:depth={depth}", {"a.xsd": f"<a{deco}>" * depth + "</a>" * depth}, "a.xsd"))
+        xsd(f"deep-sequence:start-tag={tag}:depth={depth}", '<xs:complexType name="C">' + f"<xs:sequence{deco}>" * depth + "</xs:sequence>" * depth + "</xs:complexType>")
+    for tag, filler in (("comment-with-close-tags", "<!-- </a></a> -->"), ("cdata-with-close-tags", "<![CDATA[</a></a>]]>"),
+                        ("pi-with-close-tags", "<?p </a></a>?>"), ("comment-with-empty-element-tags", "<!-- <a/><a/> /> -->")):
+        out.append((f"deep-plain-elements:between={tag}:depth={depth}", {"a.xsd": ("<a>" + filler) * depth + "</a>" * depth}, "a.xsd"))
+    # ---- both limits at once: a chain of forward references (below its limit) whose every link sits inside nested groups
+    # (below that limit): the stack has to hold the product
+    for links, nesting in ((250, 100), (200, 900)):
+        chain = "".join(f'<xs:element name="E{i}"><xs:complexType>' + "<xs:sequence>" * nesting + f'<xs:element ref="t:E{i + 1}" minOccurs="0"/>'
+                        + "</xs:sequence>" * nesting + '</xs:complexType></xs:element>' for i in range(links))
+        xsd(f"forward-ref-chain-inside-nested-groups:links={links}:nesting={nesting}", chain + f'<xs:element name="E{links}" type="xs:int"/>')
     # ---- long chains of forward references: every type extends (or refers to) the one declared after it
     for depth in (300, 6000):
         chain = "".join(f'<xs:complexType name="T{i}"><xs:complexContent><xs:extension base="t:T{i + 1}"><xs:sequence><xs:element name="e{i}" '
